@@ -54,7 +54,10 @@ func run(c Case) (f *failure, nontrivial bool) {
 			if i > 0 && c.Steps[i-1].Op == "connect" && st.IdleMs > 3000 {
 				nontrivial = true
 			}
-		case "close", "raw", "failnode":
+		case "close", "raw", "failnode", "subclose", "pubclose":
+			if st.Op == "subclose" {
+				nontrivial = true
+			}
 			for ci := range hadSubs {
 				if st.Op == "failnode" || ci == st.C {
 					nontrivial = true
@@ -109,7 +112,7 @@ func check(t ev.TB, c Case, labels ...string) {
 	ids := map[string]int{}
 	for _, st := range c.Steps {
 		switch st.Op {
-		case "close", "raw", "failnode", "disconnect":
+		case "close", "raw", "failnode", "disconnect", "subclose", "pubclose":
 			labels = append(labels, "cause:"+st.Op)
 		case "connect":
 			ids[st.ClientID]++
@@ -199,7 +202,15 @@ func genCase(t *rapid.T, allowNodeFail bool) Case {
 		case x < 16:
 			c.Steps = append(c.Steps, sim.Step{Op: "disconnect", C: ci})
 		case x < 17:
-			c.Steps = append(c.Steps, sim.Step{Op: "close", C: ci})
+			switch rapid.IntRange(0, 3).Draw(t, "closeKind") {
+			case 0:
+				c.Steps = append(c.Steps, sim.Step{Op: "subclose", C: ci, Filters: []string{rapid.SampledFrom(filters).Draw(t, "filter"), rapid.SampledFrom(filters).Draw(t, "filter2")}, QoS: []int{1, 0}})
+			case 1:
+				payload++
+				c.Steps = append(c.Steps, sim.Step{Op: "pubclose", C: ci, Topic: rapid.SampledFrom(topics).Draw(t, "topic"), Payload: fmt.Sprintf("p%d", payload)})
+			default:
+				c.Steps = append(c.Steps, sim.Step{Op: "close", C: ci})
+			}
 		case x < 18:
 			c.Steps = append(c.Steps, sim.Step{Op: "raw", C: ci, Bytes: rapid.SampledFrom(protoErrors).Draw(t, "protoError")})
 		default:
